@@ -357,6 +357,13 @@ func (g *gate) RoundTrip(req *http.Request) (*http.Response, error) {
 
 const watchdog = 120 * time.Second
 
+// patience: how long the choreography waits for the NEXT step of a login (its request reaching the
+// gate, or its return) before it goes on with the other logins. A login that does neither is parked
+// on something inside the code under test (say, waiting for another login's result); it is not
+// declared hung, it simply gets no step of its own, and is waited for at the end. With the unchanged
+// code the order of steps cannot change any verdict, so a slow machine only changes the order.
+const patience = 5 * time.Second
+
 // overlap runs action(0..k-1) so that the logins genuinely overlap, in a fixed order without sleeps:
 //  1. login i is started and runs until its first IdP request (token endpoint) is held at the gate
 //     (or until it returns); then login i+1 is started. All k are now in flight.
@@ -400,8 +407,7 @@ func (g *gate) overlap(k int, order []int, sequential bool, before func(i int), 
 		case h := <-g.arrivals:
 			first[i] = h
 		case <-done[i]:
-		case <-time.After(watchdog):
-			hung[i] = true
+		case <-time.After(patience):
 		}
 	}
 	var second []*heldReq
@@ -414,8 +420,7 @@ func (g *gate) overlap(k int, order []int, sequential bool, before func(i int), 
 		case h := <-g.arrivals:
 			second = append(second, h)
 		case <-done[i]:
-		case <-time.After(watchdog):
-			hung[i] = true
+		case <-time.After(patience):
 		}
 	}
 	g.setHolding(false)
@@ -523,7 +528,10 @@ func newWorld() (*world, error) {
 	c.Must(err)
 
 	// cmd/sso-auth/main.go:48 puts the whole mux behind http.TimeoutHandler
-	w.authSrv = httptest.NewUnstartedServer(http.TimeoutHandler(mux, cfg.ServerConfig.TimeoutConfig.Request, ""))
+	// ... and the request logging handler around that (main.go:54): requests enter through the
+	// outermost handler the binary installs
+	timeoutHandler := http.TimeoutHandler(mux, cfg.ServerConfig.TimeoutConfig.Request, "")
+	w.authSrv = httptest.NewUnstartedServer(auth.NewLoggingHandler(io.Discard, timeoutHandler, cfg.LoggingConfig.Enable, statsdClient))
 	w.authSrv.Config.ErrorLog = log.New(io.Discard, "", 0) // "http: panic serving ..." lines
 	w.authSrv.Start()
 	w.refClient = &http.Client{Timeout: 300 * time.Second, Transport: &http.Transport{DisableKeepAlives: true, Proxy: nil}}
@@ -543,7 +551,7 @@ func buildEnv() map[string]string {
 		"SESSION_KEY": sessionKeyB64, "SESSION_COOKIE_SECRET": cookieSecretB64, "SESSION_COOKIE_NAME": "_sso_auth", "SESSION_LIFETIME": "720h",
 		"CLIENT_PROXY_ID": "proxy-client-id", "CLIENT_PROXY_SECRET": "proxy-client-secret",
 		"AUTHORIZE_EMAIL_DOMAINS": "*", "AUTHORIZE_PROXY_DOMAINS": "example.com",
-		"METRICS_STATSD_HOST": "127.0.0.1", "METRICS_STATSD_PORT": "8125", "LOGGING_ENABLE": "false",
+		"METRICS_STATSD_HOST": "127.0.0.1", "METRICS_STATSD_PORT": "8125", "LOGGING_ENABLE": "true", "LOGGING_LEVEL": "info",
 	}
 	set := func(k, v string) {
 		if v != "" {
